@@ -104,6 +104,18 @@ fn check(input: &In, case: &mut Case) -> Result<(), Fail> {
     // expands to the intended names
     let (back, _) = decode_message(&c).map_err(|e| Fail::new("c07:undecodable", format!("{:?}", e)))?;
     ensure!(back == p, "c07:expands-wrong", "compressed output decodes (reference decoder) to a different packet: {}", diff(&p, &back));
+    // a writer that takes only a few bytes per write call: pointer offsets must not depend on it
+    {
+        let chunk = 1 + (*origin as usize % 5);
+        let mut w = super::c04::ChunkedWriter { inner: Cursor::new(Vec::new()), chunk };
+        let r = lib("write_compressed_to", || pk.write_compressed_to(&mut w))?;
+        r.map_err(|e| Fail::new("c07:write-failed", format!("write_compressed_to on a writer accepting {} bytes per call: {:?}", chunk, e)))?;
+        let v = w.inner.into_inner();
+        if v != c {
+            check_pointers(&v, &mut Case::default()).map_err(|f| Fail::new(format!("{}@short-writes", f.sig), format!("writer accepting {} bytes per call: {}", chunk, f.msg)))?;
+            return Err(Fail::new("c07:differs@short-writes", format!("a writer accepting {} bytes per call receives different bytes than build_bytes_vec_compressed", chunk)));
+        }
+    }
     // a writer that does not start at offset 0: pointers still count from the first byte of the message
     let k = (*origin % 600) as usize;
     if k > 0 {
@@ -129,7 +141,7 @@ fn strategy(t: Tier) -> BoxedStrategy<In> {
 pub fn def() -> CheckDef {
     CheckDef {
         id: "C07",
-        rule: "proptest: suffix-sharing packets (as C03, crossing 16 KiB) written with build_bytes_vec_compressed and with write_compressed_to on a cursor starting at offset k>0; an independent schema-aware walker locates every name occurrence (question, owner, RDATA names by type) and checks: every pointer strictly backwards, <= 16383, onto a label start of an earlier-written name, relative to the first byte of the message; reference decoding gives the model's names; no pointer inside SRV/NAPTR/KX/RRSIG/NSEC/IPSECKEY/SVCB/HTTPS names; a question/owner/RFC 1035 RDATA name already written in full at an offset <= 16383 is a single 2-byte pointer. Non-trivial = at least one pointer in the output",
+        rule: "proptest: suffix-sharing packets (as C03, crossing 16 KiB) written with build_bytes_vec_compressed with write_compressed_to on a cursor starting at offset k>0 and on a writer that accepts only 1..5 bytes per write call; an independent schema-aware walker locates every name occurrence (question, owner, RDATA names by type) and checks: every pointer strictly backwards, <= 16383, onto a label start of an earlier-written name, relative to the first byte of the message; reference decoding gives the model's names; no pointer inside SRV/NAPTR/KX/RRSIG/NSEC/IPSECKEY/SVCB/HTTPS names; a question/owner/RFC 1035 RDATA name already written in full at an offset <= 16383 is a single 2-byte pointer. Non-trivial = at least one pointer in the output",
         assumptions: vec!["RP/AFSDB/RT/NSAP-PTR names (RFC 1183/1348) are class 'may': compressed or not is accepted", "same exclusions as C02"],
         sections: vec![Box::new(PropSection { name: "pointers", rule: "pointer validity and use", strategy, cases: (200_000, 1_500_000), check })],
     }
